@@ -179,6 +179,21 @@ def t_scaling(sess, n_grains, phase, fabric, regime):
         sess.prove(f"{pt}: first step scales with the span (first_step' = first_step / k)", pc, eq(s2.kw["first_step"] * k, s1.kw["first_step"]))
         sess.prove(f"{pt}: absolute and relative tolerances do not depend on k", pc,
                    z3.And(all_eq(s1.kw["atol"], s2.kw["atol"]), z3.BoolVal(s1.kw["rtol"] == s2.kw["rtol"])))
+        # every other option handed to the integrator is either dimensionless (identical in both runs) or a time
+        # (compressed by 1/k like the span): nothing absolute may enter
+        sess.prove(f"{pt}: the two runs hand the same set of options to the integrator", pc, z3.BoolVal(sorted(s1.kw) == sorted(s2.kw)))
+        for key in sorted(set(s1.kw) & set(s2.kw)):
+            if key in ("first_step", "atol", "rtol"):
+                continue
+            a_, b_ = s1.kw[key], s2.kw[key]
+            if a_ is None and b_ is None:
+                continue
+            if isinstance(a_, (R, int, float, np.ndarray)) and isinstance(b_, (R, int, float, np.ndarray)) and not isinstance(a_, bool):
+                same = all_eq(np.atleast_1d(np.asarray(a_, dtype=object)), np.atleast_1d(np.asarray(b_, dtype=object)))
+                timelike = all_eq(np.atleast_1d(np.asarray(b_, dtype=object)) * k, np.atleast_1d(np.asarray(a_, dtype=object)))
+                sess.prove(f"{pt}: integrator option '{key}' is scale free or scales with the time span", pc, z3.Or(same, timelike))
+            else:
+                sess.prove(f"{pt}: integrator option '{key}' is the same in both runs", pc, z3.BoolVal(bool(a_ == b_)))
     if not reached:
         sess.reach.append(type("Q", (), {"name": f"{tag}: reach", "verdict": "unknown", "secs": 0.0})())
     sample(sess, obligation="rate scaling", config=tag, paths=len(paths))
